@@ -109,6 +109,39 @@ def replay_file(scratch, path, prop=None):
     return rp, res
 
 
+def history_dependent_replay(scratch, prop, seed, tier, v, batches, known_cls):
+    """v did not reproduce alone.  Execute the runs of its batch up to v['run'] in ONE fresh interpreter (same build and
+    hash seed); if the violation is back, minimise the list of earlier runs and write a 'runlist' replay file."""
+    from .common import ddmin
+    b = [x for x in batches if x["lo"] <= v["run"] < x["hi"]]
+    if not b:
+        return None
+    b = b[0]
+
+    def run_list(runs):
+        res, err = run_worker(scratch, b["build"], b["hashseed"],
+                              ["--prop", prop, "--seed", str(seed), "--tier", tier, "--known", ",".join(known_cls),
+                               "--runlist", ",".join(str(r) for r in runs)], timeout=900)
+        if res.get("type") != "runlist":
+            return None
+        vv = res.get("violation")
+        return vv is not None and vv["cls"] == v["cls"] and res.get("at") == v["run"]
+
+    prefix = list(range(b["lo"], v["run"]))
+    if not run_list(prefix + [v["run"]]):
+        return None
+    small = ddmin(prefix, lambda sub: bool(run_list(list(sub) + [v["run"]])), max_tests=40) if len(prefix) > 1 else prefix
+    if not run_list(list(small) + [v["run"]]):
+        small = prefix
+    os.makedirs(REPLAY_DIR, exist_ok=True)
+    path = os.path.join(REPLAY_DIR, "%s-%d-%d-runlist.json" % (prop, seed, v["run"]))
+    with open(path, "w") as fh:
+        json.dump({"property": prop, "seed": seed, "tier": tier, "kind": "runlist", "build": b["build"], "hashseed": b["hashseed"],
+                   "runs": list(small) + [v["run"]], "violation": {"cls": v["cls"], "msg": v["msg"]},
+                   "note": "the cases are regenerated from (seed, run index); they are executed in this order in one interpreter"}, fh)
+    return path
+
+
 def write_evidence(prop, tier, seed, level, coverage, wall, nviol, assumptions):
     os.makedirs(EVIDENCE_DIR, exist_ok=True)
     ev = {"property_id": prop, "tier": tier, "seed": seed, "level": level, "coverage": coverage,
@@ -223,6 +256,17 @@ def run_check(prop, tier="quick", seed=None, nproc=None, runs=None, budget=None,
             print("  %s" % v["msg"][:1500])
             rc = 1
         else:
+            # not reproducible from the single case: does it depend on what ran earlier in the same interpreter
+            # (state that the system under test keeps per process)?  Re-run the batch prefix in a fresh interpreter.
+            hist = history_dependent_replay(scratch, prop, seed, tier, v, batches, known_cls)
+            if hist is not None:
+                confirmed.append(v)
+                print("VIOLATION property=%s replay=%s" % (prop, hist))
+                print("  class=%s run=%s (only after the earlier runs listed in the replay file ran in the same interpreter: "
+                      "the system keeps state across independent cases)" % (v["cls"], v["run"]))
+                print("  %s" % v["msg"][:1500])
+                rc = 1
+                continue
             print("HARNESS-ERROR: violation %s of run %s did not reproduce from %s in a fresh interpreter (%s)"
                   % (v["cls"], v["run"], v["replay"], (res.get("msg") or res)))
             if rc == 0:
@@ -302,7 +346,14 @@ def run_replay(prop, path):
     need_c = rp.get("build") == "compiled"
     scratch = build.make_scratch(need_compiled=need_c)
     try:
-        rp, res = replay_file(scratch, path, prop)
+        if rp.get("kind") == "runlist":
+            res, err = run_worker(scratch, rp.get("build", "pure"), rp.get("hashseed", 0),
+                                  ["--prop", prop, "--seed", str(rp["seed"]), "--tier", rp.get("tier", "quick"), "--known", "",
+                                   "--runlist", ",".join(str(r) for r in rp["runs"])], timeout=900)
+            if res.get("type") == "runlist":
+                res = {"type": "replay", "violation": res.get("violation")}
+        else:
+            rp, res = replay_file(scratch, path, prop)
     finally:
         build.remove_scratch(scratch)
     if res.get("type") == "error":
